@@ -205,3 +205,85 @@ End C04_generated.
 Print Assumptions C04_generated_partial_backward_is_model.
 Print Assumptions C04_generated_backward_is_model.
 Print Assumptions C04_generated_forward_is_model.
+
+(* ================================================================================================================
+   The R-vs-Q instance gap, closed by proof (base/NumHom.v, proofs/QR_bridge_C04.v).
+   The theorems above are about model/Ridge.v at F := R; the correspondence run (run/RunC04.v, chk_fit) evaluates the SAME
+   term at F := Q.  [Q2R] is a homomorphism of the [Num] class, so every function of the model commutes with the entry-wise
+   embedding ([qv2r], [qm2r]; [acc2r]: both accumulators embedded): running at Q and embedding = running at R on the embedded
+   data.  Hence the accumulators XXT / YXT, the system XXT + ridge*I and the forward passes that chk_fit compares with
+   reservoirpy's Ridge are, after Q2R, exactly those of the R-MODEL OF THE THEOREMS on those rational datasets.
+   No shape hypothesis, no side condition.  [solve] stays an oracle: [fit] embeds for any pair of related solvers. *)
+From RV Require Import base.NumHom proofs.QR_bridge_C04.
+
+(* XXT and YXT after any list of sequences from the zero buffers, any warm-up; rejection (None) is preserved *)
+Theorem C04_Qaccumulators_embed (bias : bool) (din dout w : nat) (Xs Ys : list (list (list Q))) :
+  option_map acc2r (partial_fit bias din dout w (buffers0 bias din dout) Xs Ys)
+  = partial_fit bias din dout w (buffers0 bias din dout) (map qm2r Xs) (map qm2r Ys).
+Proof. exact (Qaccumulators_embed bias din dout w Xs Ys). Qed.
+
+Theorem C04_Qpartial_backward_embeds (bias : bool) (din dout : nat) (acc : list (list Q) * list (list Q)) (X Y : list (list Q)) :
+  acc2r (partial_backward bias din dout acc X Y) = partial_backward bias din dout (acc2r acc) (qm2r X) (qm2r Y).
+Proof. exact (Qpartial_backward_embeds bias din dout acc X Y). Qed.
+
+(* the system handed to the solver: XXT + ridge * I and YXT.T *)
+Theorem C04_Qridge_system_embeds (bias : bool) (lam : Q) (din : nat) (acc : list (list Q) * list (list Q)) :
+  qm2r (ridge_system bias lam din (fst acc)) = ridge_system bias (Q2R lam) din (fst (acc2r acc)) /\
+  qm2r (transpose (snd acc) (aug_dim bias din)) = transpose (snd (acc2r acc)) (aug_dim bias din).
+Proof. exact (Qridge_system_embeds bias lam din acc). Qed.
+
+(* readout_forward on a row and on a sequence *)
+Theorem C04_Qreadout_forward_embeds (dout : nat) (Wout : list (list Q)) (b : list Q) (X : list (list Q)) :
+  (forall x, qv2r (forward dout Wout b x) = forward dout (qm2r Wout) (qv2r b) (qv2r x)) /\
+  qm2r (run dout Wout b X) = run dout (qm2r Wout) (qv2r b) (qm2r X).
+Proof. exact (Qreadout_forward_embeds dout Wout b X). Qed.
+
+(* the whole fit (accumulate, solve, split bias), for any pair of solvers related by the embedding *)
+Theorem C04_Qfit_embeds (solveQ : list (list Q) -> list (list Q) -> list (list Q))
+        (solveR : list (list R) -> list (list R) -> list (list R))
+        (bias : bool) (lam : Q) (w din dout : nat) (Xs Ys : list (list (list Q))) :
+  (forall A B, qm2r (solveQ A B) = solveR (qm2r A) (qm2r B)) ->
+  option_map (fun p => (qm2r (fst p), qv2r (snd p))) (fit solveQ bias lam w din dout Xs Ys)
+  = fit solveR bias (Q2R lam) w din dout (map qm2r Xs) (map qm2r Ys).
+Proof. exact (Qfit_embeds solveQ solveR bias lam w din dout Xs Ys). Qed.
+
+(* non-vacuity: bias on, 2 inputs, 1 output, warm-up 1, sequences of 3 and 2 rows; and a rejected dataset (warm-up 2) *)
+Example C04_Qaccumulators_example :
+  partial_fit true 2 1 1 (buffers0 true 2 1) (map qm2r exXs) (map qm2r exYs)
+  = Some (acc2r ([[(3#1)%Q; (-1#4)%Q; (13#8)%Q]; [(-1#4)%Q; (53#16)%Q; (-3#16)%Q]; [(13#8)%Q; (-3#16)%Q; (273#64)%Q]],
+                 [[(1#2)%Q; (19#16)%Q; (21#16)%Q]])).
+Proof. exact Qaccumulators_example. Qed.
+Example C04_Qaccumulators_reject_example :
+  partial_fit true 2 1 2 (buffers0 true 2 1) (map qm2r exXs) (map qm2r exYs) = None.
+Proof. exact Qaccumulators_reject_example. Qed.
+
+Print Assumptions C04_Qaccumulators_embed.
+Print Assumptions C04_Qpartial_backward_embeds.
+Print Assumptions C04_Qridge_system_embeds.
+Print Assumptions C04_Qreadout_forward_embeds.
+Print Assumptions C04_Qfit_embeds.
+
+(* ---- the verdict of the correspondence runner, read at R ----
+   [chk_fit] (run/RunC04.v) is the boolean evaluated at Q by vm_compute for every scenario; [mrclose] is the entry-wise real
+   inequality |m - o| <= 1e-9 * max(1,|m|) (base/NumHom.v: [qclose m o = true <-> rclose (Q2R m) (Q2R o)]).  A verdict [true]
+   implies, for the R-INSTANCE of the model on the embedded dataset (the object of the theorems above), independently of the
+   Gauss-Jordan stand-in for LAPACK: the dataset is accepted, the weights OBSERVED on reservoirpy's Ridge satisfy the model's
+   regularised normal equations within tolerance, and the observed predictions are the model's forward pass with them. *)
+From RV Require Import run.RunC04.
+
+Theorem C04_chk_fit_is_about_R_model (bias : bool) (lam : Q) (w din dout : nat) (Xs Ys : list (list (list Q)))
+      (Wout_obs : list (list Q)) (b_obs : list Q) (Xtest pred_obs : list (list Q)) :
+  chk_fit bias lam w din dout Xs Ys Wout_obs b_obs Xtest pred_obs = true ->
+  exists accR : list (list R) * list (list R),
+    partial_fit bias din dout w (buffers0 bias din dout) (map qm2r Xs) (map qm2r Ys) = Some accR /\
+    mrclose (transpose (snd accR) (aug_dim bias din))
+            (mm (ridge_system bias (Q2R lam) din (fst accR)) (qm2r (assemble bias Wout_obs b_obs)) dout) /\
+    mrclose (run dout (qm2r Wout_obs) (qv2r b_obs) (qm2r Xtest)) (qm2r pred_obs).
+Proof. exact (chk_fit_is_about_R_model bias lam w din dout Xs Ys Wout_obs b_obs Xtest pred_obs). Qed.
+
+(* non-vacuity: a scenario on which the runner answers true *)
+Example C04_chk_fit_example :
+  chk_fit true (1#2)%Q 1 2 1 exXs exYs [[(35723#109067)%Q]; [(30012#109067)%Q]] [(8397#218134)%Q] [[1%Q; 1%Q]] [[(19981#31162)%Q]] = true.
+Proof. exact chk_fit_example. Qed.
+
+Print Assumptions C04_chk_fit_is_about_R_model.
